@@ -103,6 +103,5 @@ def fill(claim, na):
           "mapping(I) == reduced[I] then follows by a recorded induction; it is not itself decided.",
           "Positions ascending; rows cover consecutive retained pairs.",
           "DESIGN.md 3/C07")
-    for pid in ["C02", "C07", "C08", "C09", "C10", "C12", "C14",
-                "C18"]:
+    for pid in ["C02", "C08", "C09", "C10", "C12", "C14", "C18"]:
         na(pid, PENDING)
